@@ -311,9 +311,11 @@ def rate_check(fam, acc, ks, D, Fstar, Fval, slack_of, fixed, qubtol, extra=None
         slack = slack_of(Fk)
         if acc:
             M += 2 * G * T * T * Mm
-            bound = 2 * D / (G * (k + 1) ** 2) + 2 * M / (G * (k + 2) ** 2) + slack
+            # the PROVED bound (Props/C08.fista_rate_model: 2(‖x₀−x⋆‖² + M_k)/(γ_k (k+2)²)); it implies the
+            # property's 2‖x₀−x⋆‖²/(γ_k (k+1)²) (rate_le_property_bound) and is the sharper test
+            bound = 2 * (D + M) / (G * (k + 2) ** 2) + slack
             if v > bound:
-                why = (f'{fam}: F(x̂_{k}) − F⋆ = {float(v):.6e} > 2‖x₀−x⋆‖²/(γ_k (k+1)²) + margin = '
+                why = (f'{fam}: F(x̂_{k}) − F⋆ = {float(v):.6e} > 2(‖x₀−x⋆‖² + M_k)/(γ_k (k+2)²) + slack = '
                        f'{float(bound):.6e}  (γ_k={g!r}, t_k={t!r}, ‖x₀−x⋆‖²={float(D):.6e})')
                 # the momentum defect (t_new from 1+4t instead of 1+4t²) shows as t_k → 2
                 if k >= 2 and t < (k + 2) / 2 * (1 - 1e-9):
@@ -329,11 +331,18 @@ def rate_check(fam, acc, ks, D, Fstar, Fval, slack_of, fixed, qubtol, extra=None
                 return (f'{fam} (acceleration disabled): F(x̂_{k}) = {float(Fk):.17g} > F(x̂_{k - 1}) = '
                         f'{float(Fprev):.17g} (not monotone)')
             Fprev = Fk
-        if acc and k >= 1 and t < (k + 2) / 2 * (1 - 64 * EPS):
-            # t_k ≥ (k+2)/2 is what turns the energy bound into the k² rate (theorem t_ge)
-            if extra is not None:
-                extra.setdefault('t_low', (k, t))
+        if acc:
+            # t_k ≥ (k+2)/2 is what turns the energy bound into the k² rate — theorem `t_ge`
+            # (t₀ = 1, t₊ = (1+√(1+4t²))/2); 64 ulps for the k accumulated roundings of the recurrence
+            if t < (k + 2) / 2 * (1 - 64 * EPS * (k + 1)):
+                return (f'{fam}: momentum parameter t_{k} = {t!r} < (k+2)/2 = {(k + 2) / 2} '
+                        f'(invariant of theorem t_ge)', KEY_MOMENTUM)
+            TCOUNT[0] += 1
     return None
+
+
+TCOUNT = [0]          # number of (run, k) pairs on which t_k ≥ (k+2)/2 was checked
+MONO = [0]            # monitor-only ops (no model counterpart) seen by impl_view
 
 
 def monitor(op_line, out_line, st):
@@ -434,8 +443,33 @@ def nontrivial(op_line, out_line):
 
 
 def impl_view(h):
-    # untraced monitor-only ops have no model counterpart: both sides print a constant
-    return S.strip_events(h) if ' ; O ' in h else 'bad-op'
+    # untraced monitor-only ops (fista_chain / fista_logit: long runs on hand-written problems, judged by the
+    # rate monitor only) have no model counterpart: both sides print a constant; they are NOT counted as
+    # validated traces (see `post`)
+    if ' ; O ' in h:
+        return S.strip_events(h)
+    MONO[0] += 1
+    return 'bad-op'
+
+
+def post(rep, broken, exe, tier):
+    """After the correspondence: take the monitor-only ops out of `traces_validated_against_impl`, record the
+    monitor counters, require the classes that must have been exercised."""
+    n = rep.cov.get('traces_validated_against_impl', 0)
+    if 'first_disagreement' not in rep.cov:
+        rep.cov['traces_validated_against_impl'] = max(0, n - MONO[0])
+    rep.cov['monitor_only_ops_not_counted_as_traces'] = MONO[0]
+    rep.cov['momentum_invariant_t_ge_checked'] = TCOUNT[0]
+    rep.cov['fista_monitor_counts'] = dict(sorted(LF.COUNTS.items()))
+    rep.note(f'traces validated (model runs only): {rep.cov["traces_validated_against_impl"]}; monitor-only ops: '
+             f'{MONO[0]}; t_k ≥ (k+2)/2 checked on {TCOUNT[0]} iterates; '
+             + ', '.join(f'{k}={v}' for k, v in sorted(LF.COUNTS.items())))
+    for need, val in (('momentum_invariant_t_ge_checked', TCOUNT[0]),
+                      ('grad_at_x_checked', LF.COUNTS.get('grad_at_x_checked', 0)),
+                      ('prox_data_checked', LF.COUNTS.get('prox_data_checked', 0)),
+                      ('grad_and_yhat_at_xhat_checked', LF.COUNTS.get('grad_and_yhat_at_xhat_checked', 0))):
+        if not val:
+            broken.append(f'monitor class never exercised in this run: {need}')
 
 
 def driver_input(o, h):
@@ -475,7 +509,7 @@ def main(argv):
         harness_name='solvers_fista', harness_sources=[], harness_builder=lambda: (exe, log),
         gen_ops=gen_ops, monitor=monitor, nontrivial=nontrivial,
         driver_input=driver_input, impl_view=impl_view,
-        n_quick=160, n_thorough=2500,
+        n_quick=160, n_thorough=2500, extra_stage=post,
         trusted_base=[
             'Lean 4.33 kernel + Mathlib (axioms: propext, Classical.choice, Quot.sound)',
             'translators gen_c05/gen_c06/gen_c08 (QUB test, status chain, criteria, t_new, extrapolation, '
